@@ -60,6 +60,7 @@ func init() {
 			obInputsReadOnly(c, "C11.2")
 			obMapRangeOrder(c, "C11.3")
 			obFlagGate(c, "C11.4")
+			obEvalReadOnly(c, "C11.2b")
 		},
 	}
 }
